@@ -444,6 +444,27 @@ def _to_session_expr() -> str:
     raise ValueError("check_send_frame_to_session_manager: unrecognised return shape")
 
 
+def _dmz_broadcast_drop() -> bool:
+    """Does the else-branch of `_process_dmz_outbound_frame` (frame not for the firewall's own software) start with
+    `if frame.is_broadcast: return`, i.e. before any look-up?"""
+    fw = class_def(parse(FW), "Firewall")
+    fn = find_method(fw, "_process_dmz_outbound_frame")
+    branch = [s for s in _body(fn) if isinstance(s, ast.If) and _u(s.test) == "self.check_send_frame_to_session_manager(frame)"]
+    if len(branch) != 1:
+        raise ValueError("_process_dmz_outbound_frame: session branch not found")
+    els = [s for s in branch[0].orelse if not _is_log(s)]
+    if not els:
+        raise ValueError("_process_dmz_outbound_frame: empty else branch")
+    first = els[0]
+    drop = (isinstance(first, ast.If) and _u(first.test) == "frame.is_broadcast" and not first.orelse
+            and [_u(x) for x in first.body if not _is_log(x)] == ["return"])
+    if not drop:
+        # no drop: then the first statement must be the look-up (the shape before the repair)
+        if not _u(first).startswith("outbound_nic = self.software_manager.arp.get_arp_cache_network_interface("):
+            raise ValueError("_process_dmz_outbound_frame: unrecognised first statement of the else branch")
+    return drop
+
+
 def _lean_str_list(xs: List[str]) -> str:
     return "[" + ", ".join('"' + x + '"' for x in xs) + "]"
 
@@ -465,6 +486,8 @@ def portDispatch : List (Nat × String) := [{", ".join(f'({p}, "{e}")' for p, e 
 def verdictFirst : Bool := {lb(verdict_first)}
 /-- branch structure of each entry point after the DENY return -/
 def entryShape : List (String × String) := [{", ".join(f'("{a}", "{b}")' for a, b in _entry_shapes())}]
+/-- `_process_dmz_outbound_frame` drops a layer-2 broadcast before the look-ups -/
+def dmzOutDropsBroadcast : Bool := {lb(_dmz_broadcast_drop())}
 /-- boolean expressions over named facts (Python's own parse of the source expression) -/
 inductive BExpr where
   | atom (name : String) | const (b : Bool) | and (a b : BExpr) | or (a b : BExpr) | not (a : BExpr)
